@@ -1315,8 +1315,23 @@ impl World {
             }
         };
         let nstaged: usize = before.objects.values().map(|o| o.revs.iter().filter(|x| x.2).count()).sum();
-        self.t(format!("r{}.unstage (staged revs {}){}", i, nstaged, if replay { " + replay_stage" } else { "" }));
-        let res = {
+        // the staged changes are discarded either by unstage() or, like an application restart that
+        // persisted the export, by opening a new replica on the same storage
+        let by_restart = replay && !self.reps[i].behind && self.reps[i].travelled.is_none() && self.r.chance(35);
+        self.t(format!("r{}.{} (staged revs {}){}", i, if by_restart { "restart" } else { "unstage" }, nstaged, if replay { " + replay_stage" } else { "" }));
+        let res = if by_restart {
+            let caps = self.prof.clone().pick_caps(&mut self.r);
+            match open_with(&self.reps[i].ad, caps) {
+                Outcome::Ok(m2) => {
+                    self.reps[i].m = m2;
+                    self.reps[i].caps = caps;
+                    self.res.feat_add("restarts_with_persisted_stage", 1);
+                    Outcome::Ok(())
+                }
+                Outcome::Err(e) => Outcome::Err(e),
+                Outcome::Panic(p) => Outcome::Panic(p),
+            }
+        } else {
             let rep = &mut self.reps[i];
             guard(|| rep.m.unstage())
         };
